@@ -177,6 +177,23 @@ ASSUME JsonSerialize(IOEnv.VERDICT_OUT, [fixed |-> SetToSeq(UnsafePairs({maxn_ru
                     continue
                 seen.add((n1d, p, o, coord))
                 fps.append(observe_footprint(n1d, p, o, coord, dt, 2 + (n1d % 3)))
+    # thorough: configurations exercised by the repository's own runnable TSC tests (hooks on, events recorded to a file)
+    if not chk.quick:
+        import subprocess
+        import sys
+        trf = os.path.join(chk.scratch, 'repo_tests_trace.ndjson')
+        repo = os.environ.get('VERIF_REPO', '/repo')
+        env = dict(os.environ, ABACUSUTILS_VERIF='1', ABACUSUTILS_VERIF_TRACE=trf)
+        subprocess.run([sys.executable, '-m', 'pytest', '-q', '-p', 'no:cacheprovider', 'tests/test_tsc.py', '-k', 'test_single or test_multi'], cwd=repo, env=env,
+                       capture_output=True, text=True, timeout=1800)
+        nev = 0
+        if os.path.exists(trf):
+            for line in open(trf):
+                e = json.loads(line)
+                if e.get('event') == 'tsc_config':
+                    nev += 1
+                    dec.append(dict(n1d=int(e['n1d']), nthread=int(e['nthread']), arg=-1, accepted=True, np=max(int(e['npartition']), 1), coord=int(e['coord']), source='tests/test_tsc.py'))
+        chk.part('repo_test_traces', tsc_config_events=nev)
     tf = os.path.join(chk.scratch, 'obs.json')
     json.dump(dict(offsets=[-4, -2, -1, 0, 1, 2, 3, 4], decisions=dec, footprints=fps), open(tf, 'w'))
     vf2 = os.path.join(chk.scratch, 'verdict.json')
@@ -195,7 +212,7 @@ ASSUME JsonSerialize(IOEnv.VERDICT_OUT, [fixed |-> SetToSeq(UnsafePairs({maxn_ru
     for i in v['unsafe']:
         d = dec[i - 1]
         chk.violation(f'unsafe-accepted-{rel(d["n1d"], d["np"])}' + ('' if d.get('coord', 0) == 0 else '-coord>0'),
-                      f'tsc_parallel accepts n1d={d["n1d"]} (coord={d.get("coord", 0)}) nthread={d["nthread"]} npartition={"default" if d["arg"] == 0 else d["arg"]} -> {d["np"]} stripes; '
+                      f'tsc_parallel accepts n1d={d["n1d"]} (coord={d.get("coord", 0)}) nthread={d["nthread"]} npartition={"default" if d["arg"] == 0 else d["arg"]} -> {d["np"]} stripes{" (configuration recorded from tests/test_tsc.py)" if d.get("source") else ""}; '
                       f'TLC: two stripes of the same pass update a common row', dict(kind='decision', **d))
     for i in v['conflicts']:
         f = fps[i - 1]
